@@ -109,3 +109,30 @@ Definition rq_nthreads (s : q_state) : nat := S (length (q_threads s)).
 Definition rq_trace (s : q_state) (sched : list nat) : hb_trace :=
   rq_setup (length (q_threads s)) (length (q_chain s) - 1)
   ++ rq_trace_from s (rq_ghost0 s) sched.
+
+(* ------------------------------------------------------------------ a faulty variant (documentation)
+   "Pop clears the value of the new dummy": after a successful head CAS the winner executes
+   next.value = nil, a plain WRITE of the cell other poppers may still be reading in their D4
+   step.  Used by rq_pop_clear_refuted: the labelled runs of this variant do race. *)
+Definition rq_step_clear (s : q_state) (g : rq_ghost) (i : nat) : list rc_ev * rq_ghost :=
+  let '(evs, g') := rq_step s g i in
+  match nth_error (q_threads s) i with
+  | Some th =>
+      match q_pcof th with
+      | QD6 h _ => if h =? q_hi s then (evs ++ [RWrite (rq_own g (S h))], g') else (evs, g')
+      | _ => (evs, g')
+      end
+  | None => (evs, g')
+  end.
+
+Fixpoint rq_trace_from_clear (s : q_state) (g : rq_ghost) (sched : list nat) : hb_trace :=
+  match sched with
+  | [] => []
+  | i :: r =>
+      map (pair i) (fst (rq_step_clear s g i))
+      ++ rq_trace_from_clear (fst (q_step s i)) (snd (rq_step_clear s g i)) r
+  end.
+
+Definition rq_trace_clear (s : q_state) (sched : list nat) : hb_trace :=
+  rq_setup (length (q_threads s)) (length (q_chain s) - 1)
+  ++ rq_trace_from_clear s (rq_ghost0 s) sched.
